@@ -56,6 +56,14 @@ def generate(tier, seed):
     km2 = dict(K["keymatch"])
     km2["m"] = lambda k: And(Eq(V("r", "sub"), V("p", "sub")), Call("keyMatch2", V("r", "obj"), V("p", "obj")), Call("regexMatch", V("r", "act"), V("p", "act")))
     models["keymatch2"] = (km2, [["alice", "/a/:x", "^(GET|POST)$"], ["é", "/:x/b/*", "GET"]])
+    # deny-override / allow-and-deny models whose matcher can FAIL on the request (keyMatch on a non-string value): the failure
+    # must surface as an error on whichever rule is reached first - also on a rule that could not change the outcome - never as
+    # the effect rule's default grant
+    for ek in ("DO", "AD"):
+        kd = dict(K["keymatch"])
+        kd["p"] = SOAE
+        kd["e"] = ek
+        models["keymatch_" + ek] = (kd, [["alice", "/a/*", "read", "allow"], ["bob", "/secret/*", "read", "deny"], ["é", "/é*", "read", "allow"]])
     vals_pool = keys if tier != "quick" else rnd.sample(C, 120) + ["/é", "é", "GET", "alice"]
     for name, (d, rules) in models.items():
         sp = spec_of(d)
